@@ -9,6 +9,11 @@ import (
 	"github.com/corestario/kyber/encrypt/ecies"
 	dkgPedersen "github.com/corestario/kyber/share/dkg/pedersen"
 	"github.com/corestario/kyber/sign/schnorr"
+	vssPedersen "github.com/corestario/kyber/share/vss/pedersen"
+	"go.dedis.ch/protobuf"
+	"golang.org/x/crypto/hkdf"
+	"crypto/aes"
+	"crypto/cipher"
 
 	"github.com/lidofinance/dc4bc/client/api/dto"
 	ctypes "github.com/lidofinance/dc4bc/client/types"
@@ -194,6 +199,22 @@ func runC11(c *Ctx, n, t int, tag string, dv c11Dev) c11Obs {
 						ct, _ = ecies.Encrypt(c04Suite, cl.Machines[dv.Victim].GetPubKey(), plain, c04Suite.Hash)
 					case "empty":
 						ct = []byte{}
+					case "share-off-polynomial":
+						// the dealer's genuine deal for the victim with the share moved off the polynomial,
+						// re-encrypted exactly as kyber does (commitments = the broadcast ones)
+						g := inst.VerifInstance()
+						pd, e := g.GetDealer().PlaintextDeal(dv.Victim)
+						if e != nil {
+							panic(e)
+						}
+						bad := *pd
+						sh := *pd.SecShare
+						sh.V = c04Suite.Scalar().Add(pd.SecShare.V, c04Suite.Scalar().One())
+						bad.SecShare = &sh
+						obs.shares[dv.Victim] = scalarDec(sh.V)
+						enc := kyberEncryptDeal(inst.GetSecKey(), g.GetConfig().NewNodes, dv.Victim, &bad)
+						plain, _ := json.Marshal(dkgPedersen.Deal{Index: uint32(dv.Dealer), Deal: enc})
+						ct, _ = ecies.Encrypt(c04Suite, cl.Machines[dv.Victim].GetPubKey(), plain, c04Suite.Hash)
 					}
 					req["Deal"], _ = json.Marshal(ct)
 					m.Data, _ = json.Marshal(req)
@@ -245,7 +266,7 @@ func runC11(c *Ctx, n, t int, tag string, dv c11Dev) c11Obs {
 func scenarioC11(c *Ctx) {
 	type cfg struct{ n, t int }
 	cfgs := []cfg{{3, 2}}
-	kinds := []string{"honest", "bc-all", "bc-first", "bc-last", "bc-short", "bc-empty", "bc-long", "wrong-key", "truncated-9", "truncated-tail", "truncated-60", "garbled", "not-a-deal", "null-deal", "claims-own-index", "empty", "complaint"}
+	kinds := []string{"honest", "bc-all", "bc-first", "bc-last", "bc-short", "bc-empty", "bc-long", "wrong-key", "truncated-9", "truncated-tail", "truncated-60", "garbled", "not-a-deal", "null-deal", "share-off-polynomial", "claims-own-index", "empty", "complaint"}
 	if !c.Quick() {
 		cfgs = []cfg{{3, 2}, {2, 2}, {4, 3}, {4, 4}, {5, 3}}
 	}
@@ -328,16 +349,15 @@ func c11Judge(c *Ctx, n, t int, dv c11Dev, o c11Obs) {
 	}
 	deviates := dv.Kind != "honest"
 	if dv.Kind == "complaint" {
-		// the complaint makes the master-key step fail on every machine that sees it
-		anyErr := false
-		for _, ev := range o.master {
-			if strings.Contains(ev, "error") {
-				anyErr = true
-			}
+		// every deal WAS consistent: the complaint is a false accusation by the deviating participant.
+		// The property demands nothing for it (readiness is allowed when all deals are consistent);
+		// the run only shows that nothing crashes, the outcome goes into the notes.
+		st := strings.Join(uniqueStrings(o.states), ",")
+		if c.Notes["false_complaint_outcomes"] == nil {
+			c.Notes["false_complaint_outcomes"] = map[string]int{}
 		}
-		if !anyErr {
-			fail("complaint-ignored", "a response carrying a complaint did not make any participant report an error at the master-key step")
-		}
+		c.Notes["false_complaint_outcomes"].(map[string]int)[fmt.Sprintf("n=%d t=%d: %s", n, t, st)]++
+		return
 	} else if deviates && !anyRefuse && dv.Kind != "empty" {
 		// the error may also be reported one step later (a deal that the addressee could not
 		// attribute to its dealer leaves that dealer uncertified at the master-key step)
@@ -398,4 +418,40 @@ func uniqueStrings(l []string) []string {
 		}
 	}
 	return out
+}
+
+// kyberEncryptDeal: vss.Dealer.EncryptedDeal for an arbitrary deal (ephemeral DH key signed with
+// the dealer's long-term key, HKDF-SHA256 over the shared point, AES-GCM with a zero nonce)
+func kyberEncryptDeal(long kyber.Scalar, verifiers []kyber.Point, i int, d *vssPedersen.Deal) *vssPedersen.EncryptedDeal {
+	suite := c04Suite
+	dealerPub := suite.Point().Mul(long, nil)
+	dhSecret := suite.Scalar().Pick(suite.RandomStream())
+	dhPublic := suite.Point().Mul(dhSecret, nil)
+	dhBuf, _ := dhPublic.MarshalBinary()
+	sig, err := schnorr.Sign(suite, long, dhBuf)
+	if err != nil {
+		panic(err)
+	}
+	pre := suite.Point().Mul(dhSecret, verifiers[i])
+	h := suite.Hash()
+	h.Write([]byte("vss-dealer"))
+	dealerPub.MarshalTo(h)
+	h.Write([]byte("vss-verifiers"))
+	for _, v := range verifiers {
+		v.MarshalTo(h)
+	}
+	ctx := h.Sum(nil)
+	preBuf, _ := pre.MarshalBinary()
+	key := make([]byte, 32)
+	if _, err := hkdf.New(suite.Hash, preBuf, nil, ctx).Read(key); err != nil {
+		panic(err)
+	}
+	block, _ := aes.NewCipher(key)
+	gcm, _ := cipher.NewGCM(block)
+	nonce := make([]byte, gcm.NonceSize())
+	buf, err := protobuf.Encode(d)
+	if err != nil {
+		panic(err)
+	}
+	return &vssPedersen.EncryptedDeal{DHKey: dhBuf, Signature: sig, Nonce: nonce, Cipher: gcm.Seal(nil, nonce, buf, ctx)}
 }
